@@ -54,6 +54,11 @@ def floatCompare (a b : UInt64) : Int :=
 def floatIsInf (b : UInt64) (sign : Int) : Bool :=
   Float64.isInf b && (if sign > 0 then !Float64.sign b else if sign < 0 then Float64.sign b else true)
 
+/-- the values a `ListIterator` yields; nothing for other kinds -/
+def listEntries : Node → List Node
+  | .list xs => xs
+  | _ => []
+
 /-- the (key, value) pairs a `MapIterator` yields, keys as string nodes; nothing for other kinds -/
 def mapEntries : Node → List (Node × Node)
   | .map kvs => kvs.map (fun kv => (Node.str kv.1, kv.2))
